@@ -74,25 +74,175 @@ func exitClass(ch string) string {
 
 // commOf returns (direction, channel expression, the ast node that is the communication).
 func commOf(s ast.Stmt) (dir string, ch string, node ast.Node) {
+	dir, e, node := commExprOf(s)
+	if e == nil {
+		return dir, "?", node
+	}
+	return dir, src(e), node
+}
+
+func commExprOf(s ast.Stmt) (dir string, ch ast.Expr, node ast.Node) {
 	switch s := s.(type) {
 	case *ast.SendStmt:
-		return ".send", src(s.Chan), s
+		return ".send", s.Chan, s
 	case *ast.ExprStmt:
 		if u, ok := s.X.(*ast.UnaryExpr); ok && u.Op == token.ARROW {
-			return ".recv", src(u.X), u
+			return ".recv", u.X, u
 		}
 	case *ast.AssignStmt:
 		if len(s.Rhs) == 1 {
 			if u, ok := s.Rhs[0].(*ast.UnaryExpr); ok && u.Op == token.ARROW {
-				return ".recv", src(u.X), u
+				return ".recv", u.X, u
 			}
 		}
 	}
-	return ".unknown", "?", nil
+	return ".unknown", nil, nil
+}
+
+// localChans maps the local variables of a function to canonical, name-free texts:
+//   - a channel made in the function (`x := make(chan …)`, or `var x chan …` with a single
+//     `x = make(chan …)`) is "made#k" (k-th such channel in order of declaration);
+//   - a local defined exactly once by a single-valued expression and never reassigned is that
+//     expression ("Get(h)", "time.NewTicker(…)");
+//   - any other local is "local".
+// Parameters, receivers and type-switch guards keep their names.
+func localChans(fd *ast.FuncDecl) map[string]string {
+	order := []string{}
+	seen := map[string]bool{}
+	makes := map[string]int{}
+	other := map[string]int{}
+	defText := map[string]string{}
+	guards := map[*ast.AssignStmt]bool{}
+	ast.Inspect(fd.Body, func(n ast.Node) bool {
+		if ts, ok := n.(*ast.TypeSwitchStmt); ok {
+			if a, ok := ts.Assign.(*ast.AssignStmt); ok {
+				guards[a] = true
+			}
+		}
+		return true
+	})
+	declare := func(id *ast.Ident) {
+		if id == nil || id.Name == "_" || seen[id.Name] {
+			return
+		}
+		seen[id.Name] = true
+		order = append(order, id.Name)
+	}
+	isMake := func(e ast.Expr) bool {
+		c, ok := e.(*ast.CallExpr)
+		if !ok || len(c.Args) == 0 {
+			return false
+		}
+		id, ok := c.Fun.(*ast.Ident)
+		if !ok || id.Name != "make" {
+			return false
+		}
+		_, isChan := c.Args[0].(*ast.ChanType)
+		return isChan
+	}
+	note := func(name string, rhs ast.Expr) {
+		if rhs != nil && isMake(rhs) {
+			makes[name]++
+			return
+		}
+		other[name]++
+		if rhs != nil {
+			if _, isLit := rhs.(*ast.FuncLit); !isLit {
+				defText[name] = oneLine(src(rhs))
+				return
+			}
+		}
+		defText[name] = ""
+	}
+	ast.Inspect(fd.Body, func(n ast.Node) bool {
+		switch n := n.(type) {
+		case *ast.AssignStmt:
+			if guards[n] {
+				return true
+			}
+			for i, l := range n.Lhs {
+				id, ok := l.(*ast.Ident)
+				if !ok {
+					continue
+				}
+				if n.Tok == token.DEFINE {
+					declare(id)
+				}
+				if !seen[id.Name] {
+					continue
+				}
+				if len(n.Lhs) == len(n.Rhs) && n.Tok != token.ADD_ASSIGN {
+					note(id.Name, n.Rhs[i])
+				} else {
+					note(id.Name, nil)
+				}
+			}
+		case *ast.IncDecStmt:
+			if id, ok := n.X.(*ast.Ident); ok && seen[id.Name] {
+				note(id.Name, nil)
+			}
+		case *ast.ValueSpec:
+			for i, id := range n.Names {
+				declare(id)
+				if i < len(n.Values) {
+					note(id.Name, n.Values[i])
+				}
+			}
+		case *ast.RangeStmt:
+			if n.Tok == token.DEFINE {
+				for _, e := range []ast.Expr{n.Key, n.Value} {
+					if id, ok := e.(*ast.Ident); ok {
+						declare(id)
+						note(id.Name, nil)
+					}
+				}
+			}
+		}
+		return true
+	})
+	out := map[string]string{}
+	m := 0
+	for _, name := range order {
+		switch {
+		case makes[name] == 1 && other[name] == 0:
+			m++
+			out[name] = fmt.Sprintf("made#%d", m)
+		case makes[name] == 0 && other[name] == 1 && defText[name] != "":
+			out[name] = defText[name]
+		default:
+			out[name] = "local"
+		}
+	}
+	return out
+}
+
+// canonChan prints a channel expression with the root identifier, if it is a local variable,
+// replaced by its canonical text.
+func canonChan(locals map[string]string, e ast.Expr) string {
+	text := src(e)
+	root := e
+	for {
+		switch x := root.(type) {
+		case *ast.SelectorExpr:
+			root = x.X
+			continue
+		case *ast.ParenExpr:
+			root = x.X
+			continue
+		}
+		break
+	}
+	if id, ok := root.(*ast.Ident); ok {
+		if c, ok := locals[id.Name]; ok && strings.HasPrefix(text, id.Name) {
+			return c + text[len(id.Name):]
+		}
+	}
+	return text
 }
 
 func blockingRows(fd *ast.FuncDecl, label string) []string {
 	var rows []string
+	locals := localChans(fd)
 	inSelect := map[ast.Node]bool{}
 	type row struct {
 		pos  token.Pos
@@ -122,7 +272,10 @@ func blockingRows(fd *ast.FuncDecl, label string) []string {
 			}
 			class := ""
 			if dir == ".recv" {
-				class = exitClass(ch)
+				class = exitClass(ch) // classification reads the text as written
+			}
+			if _, che, _ := commExprOf(cc.Comm); che != nil {
+				ch = canonChan(locals, che) // the row is name-free
 			}
 			cases = append(cases, cse{dir, ch, class, node, cc.Pos()})
 		}
@@ -146,12 +299,12 @@ func blockingRows(fd *ast.FuncDecl, label string) []string {
 		case *ast.SendStmt:
 			if !inSelect[n] {
 				out = append(out, row{n.Pos(), fmt.Sprintf("⟨%s, .send, %s, false, []⟩",
-					leanStr(label), leanStr(src(n.Chan)))})
+					leanStr(label), leanStr(canonChan(locals, n.Chan)))})
 			}
 		case *ast.UnaryExpr:
 			if n.Op == token.ARROW && !inSelect[n] {
 				out = append(out, row{n.Pos(), fmt.Sprintf("⟨%s, .recv, %s, false, []⟩",
-					leanStr(label), leanStr(src(n.X)))})
+					leanStr(label), leanStr(canonChan(locals, n.X)))})
 			}
 		}
 		return true
